@@ -39,11 +39,12 @@ for nm, d, extra, tiers in (("xml_roundtrip_tree", {"FIX": 0}, [], {"quick": {},
                             ("xml_roundtrip_rich_v2", {"FIX": 1, "FIXM": 95, "XFLAGS": "1UL"}, [], {"quick": {}, "thorough": {}}),
                             ("xml_roundtrip_io", {"FIX": 1, "FIXM": 32}, [], {"thorough": {"timeout": 3000}}),
                             ("xml_roundtrip_distances", {"FIX": 0, "WITH_DIST": 2}, ["hwloc___xml_v2export_distances", "hwloc__xml_v2export_distances", "hwloc__xml_import_distances", "hwloc_internal_distances_add_by_index", "hwloc_internal_distances_refresh"], {"quick": {}, "thorough": {}}),
+                            ("xml_roundtrip_memattrs_cpuset", {"FIX": 0, "WITH_MEMATTR": 2}, ["hwloc__xml_export_memattrs", "hwloc__xml_import_memattr"], {"thorough": {"timeout": 2400}}),
                             ("xml_roundtrip_memattrs", {"FIX": 0, "WITH_MEMATTR": 1}, ["hwloc__xml_export_memattrs", "hwloc__xml_export_memattr_target", "hwloc__xml_import_memattr", "hwloc__xml_import_memattr_value", "hwloc_internal_memattr_set_value"], {"quick": {}, "thorough": {}}),
                             ("xml_roundtrip_cpukinds", {"FIX": 0, "WITH_CPUKINDS": 1}, ["hwloc__xml_export_cpukinds", "hwloc__xml_import_cpukind", "hwloc_internal_cpukinds_register", "hwloc_internal_cpukinds_rank"], {"quick": {}, "thorough": {}})):
     HARNESSES.append(dict(XT, name=nm, entry="h_xml_roundtrip", defines=d, encoded=XT_ENC + extra, tiers=tiers, cost=120,
                           bounds="one fixture topology built by the real core (%s); the run is concrete: CBMC interprets export -> element tree -> import inside the real discovery pipeline -> comparison -> re-export, checking every access" % ("9 objects" if d.get("FIX") == 0 else "9 objects + bridge/PCI/OS device" if d.get("FIXM") == 32 else "13 objects: L2, Group(dont_merge), memory-side cache, page types, Misc, names, subtype, object and topology infos"),
-                          core=(d.get("FIXM") != 32)))
+                          core=(d.get("FIXM") != 32 and d.get("WITH_MEMATTR") != 2)))
 XI = dict(XT, unwind=12)
 XI["unwindset"] = dict(XT_UW, **dict({"h_import_distances.%d" % k: 18 for k in range(6)}, **{"dist_case.0": 5, "dist_case.1": 5, "dist_case.2": 5, "dist_case.3": 5, "dist_case.4": 17, "dist_case.5": 17}))
 C06_EXTRA = []      # the crafted-input harnesses belong to C06 (specs/C06.py takes them from here)
@@ -64,6 +65,11 @@ _sliced(dict(XI, name="xml_import_cpukind", entry="h_import_cpukind", checks="sa
 _sliced(dict(XI, name="xml_import_memattr", entry="h_import_memattr", checks="safety+", encoded=["hwloc__xml_import_memattr", "hwloc__xml_import_memattr_value", "hwloc___xml_import_info", "hwloc_memattr_register", "hwloc_memattr_get_by_name", "hwloc_internal_memattr_set_value", "hwloc__memattr_get_target", "hwloc__memattr_target_get_initiator"],
              unwindset=dict(XT_UW, **{"h_import_memattr.%d" % k: 12 for k in range(6)}), tiers={"quick": {}, "thorough": {}}, cost=80,
              bounds="<memattr> elements: name in {built-in Bandwidth, new, missing} x flags in {5, 1, 3, missing} x 10 kinds of <memattr_value> (cpuset/object/no initiator, missing or unknown target type, missing value, unknown attribute, unknown or incomplete initiator) x NO_MEMATTRS, plus {unknown attribute, unknown child, info child}; concrete runs selected by symbolic inputs on a fresh attribute table"), 8)
+XD = dict(XT, units=XT["units"] + ["hwloc/diff.c"])
+C16_EXTRA = [dict(XD, name="xml_diff_roundtrip_e%d" % e, entry="h_xml_diff_roundtrip", defines={"DENTRY": e}, encoded=["hwloc__xml_export_diff", "hwloc__xml_import_diff", "hwloc__xml_import_diff_one"], tiers=({"quick": {}, "thorough": {}} if e == 0 else {"thorough": {"timeout": 900}}), core=(e == 0), mem_gb=(16 if e == 0 else 8), cost=20,
+                  bounds="one diff entry (%s) through the real exporter, an element tree and the real importer: same entry (concrete run)" % ["64-bit size change on a special (negative) depth", "name change", "info change"][e]) for e in (0, 1, 2)]
+C06_EXTRA.append(dict(XD, name="xml_import_diff", entry="h_import_diff", checks="safety+", encoded=["hwloc__xml_import_diff", "hwloc__xml_import_diff_one", "hwloc_topology_diff_destroy"], unwindset=dict(XT_UW, **{"h_import_diff.0": 11}), tiers={"quick": {}, "thorough": {}}, cost=30,
+                      bounds="9 crafted <diff> elements (complete, missing type/depth/value/name, unknown attribute, other diff type, unknown attribute type, unknown element): 0/-1, nothing imported from an incomplete entry, what is imported can be destroyed"))
 for lo in range(0, 30, 3):
     C06_EXTRA.append(dict(XT, name="xml_documents_%02d" % lo, entry="h_xml_documents", defines={"DOC_LO": lo, "DOC_HI": lo + 2}, encoded=["hwloc_look_xml", "hwloc__xml_import_object", "hwloc__xml_import_object_attr", "hwloc__xml_import_obj_info", "hwloc__xml_import_pagetype", "hwloc_discover", "hwloc_topology_clear", "hwloc_topology_setup_defaults", "hwloc_filter_levels_keep_structure"],
                           unwindset=dict(XT_UW, **{"h_xml_documents.0": 5}), tiers={"quick": {}, "thorough": {}}, cost=90,
